@@ -1156,6 +1156,60 @@ def r06y(ctx, rep, rule="R06y"):
     rep.floor(rule, "panic-capable sites in the front-end crates", len(sites), 4)
 
 
+ALLOC_SINKS = re.compile(r"(std|alloc)::vec::from_elem$|::with_capacity$|Vec::<T, A>::(resize|reserve|reserve_exact|extend_from_slice)$|"
+                         r"String::(reserve|reserve_exact)$|iter::Extend<.*>>::extend$|iter::FromIterator<.*>>::from_iter$|iter::Iterator::collect$|"
+                         r"str::<impl str>::repeat$")
+SIZE_SOURCES = ("marwood::number::Number::to_usize", "marwood::vm::builtin::pop_usize", "marwood::number::Number::to_u64",
+                "marwood::number::Number::to_u32")
+
+
+def r06s(ctx, rep, rule="R06s"):
+    """an allocation sized by the program can fail; it must not abort"""
+    from ..flow import Labels
+    facts = ctx["facts"]
+    rep.rule(rule, "the program names the size, the allocator may refuse: Vec and String allocate infallibly — a size beyond isize::MAX "
+             "bytes panics with 'capacity overflow' before any memory is asked for. Wherever the size of an allocation (vec![x; n], "
+             "with_capacity, resize, reserve, extend / collect of a repeat_n) derives from a number the program supplied (the "
+             "result of Number::to_usize / pop_usize), the allocation is dominated by the success edge of a try_reserve / "
+             "try_reserve_exact: (make-vector 18446744073709551615 0) is an error, not an abort.")
+    n = 0
+    for p, f in sorted(facts.fns.items()):
+        if f.crate != "marwood" or not p.startswith("marwood::vm::builtin::"):
+            continue
+        srcs = [bb for bb, t in f.calls() if callee(t) in SIZE_SOURCES]
+        if not srcs:
+            continue
+        init = {}
+
+        def transfer(t, al):
+            if callee(t) in SIZE_SOURCES:
+                return {"N"}
+            return None
+        lab = Labels(f, call_transfer=transfer)
+        tries = [(bb, t) for bb, t in f.calls() if re.search(r"::try_reserve(_exact)?$", callee(t) or "")]
+        k = 0
+        for bb, t in f.calls():
+            c = callee(t) or ""
+            if not ALLOC_SINKS.search(c) and not ALLOC_SINKS.search(t.get("fnargs") or ""):
+                continue
+            al = lab.call_arg_labels(t, bb)
+            if not any("N" in a for a in al):
+                continue
+            k += 1
+            n += 1
+            key = "%s|%s|%s#%d" % (rule, f.short.rsplit("::", 1)[-1], short_path(c).rsplit("::", 1)[-1], k)
+            ok = False
+            for tb, tt in tries:
+                # success edge of the `?` / match on the try_reserve result dominates the allocation
+                if f.dominates(tb, bb) and tb != bb:
+                    ok = True
+            (rep.ok if ok else rep.fail)(
+                rule, key, "%s allocates a program-sized buffer only after try_reserve succeeded" % f.short if ok else
+                "%s sizes an infallible allocation (%s) with a number the program supplied and no try_reserve precedes it: a size "
+                "beyond isize::MAX bytes panics with 'capacity overflow'" % (f.short, short_path(c)), [t["loc"]])
+    rep.floor(rule, "program-sized allocations in the builtins", n, 2)
+
+
 def r06b(ctx, rep):
     facts, cg = ctx["facts"], ctx["cg"]
     rep.rule("R06b", "no mutable borrow is held across a call into the library: while a RefMut guard is live, only "
@@ -1484,6 +1538,7 @@ def run(ctx, rep):
     r06w(ctx, rep)
     r06x(ctx, rep)
     r06y(ctx, rep)
+    r06s(ctx, rep)
     # R06v: the n-ary list walks of the prelude need a list to end on
     from . import C14
     sub = type(rep)(rep.prop)
